@@ -637,6 +637,9 @@ impl Check for C16 {
             self.exec_agreement(sc, st)
         }
     }
+    fn interference(&self) -> bool {
+        true
+    }
     fn required_probes(&self, _tier: Tier) -> Vec<&'static str> {
         vec![
             "probe:multibyte_after_cr",
